@@ -1,0 +1,6 @@
+//go:build !verif
+// +build !verif
+
+package main
+
+func vhook(ev string, proto string, body []byte, payload []byte) {}
